@@ -194,6 +194,39 @@ def lclose(a, b):
     return close(a, b, 1e-9, 1e-9)
 
 
+def _array_pass(v, u, w, xs, err):
+    """the same inputs as ONE array-valued quantity (list, float64 and float32 ndarray): element i must equal what the
+    scalar quantity answers for the number the element holds"""
+    from scinumtools.units import Quantity
+    if err or not xs:
+        return False
+    for form in ("list", "float64", "float32"):
+        if form == "list":
+            arr, held = list(xs), [float(x) for x in xs]
+        else:
+            arr = np.array(xs, dtype=form)
+            held = [float(x) for x in arr]
+        if not all(np.isfinite(h) for h in held):
+            continue
+        try:
+            ref = [float(Quantity(h, u).value(w)) for h in held]
+        except Exception:
+            continue
+        for name in ("value", "to"):
+            try:
+                q = Quantity(arr, u)
+                got = q.value(w) if name == "value" else q.to(w).value()
+                got = np.atleast_1d(np.asarray(got, dtype=float)).tolist()
+            except Exception as e:
+                v.fail("array-raised", f"Quantity({form} {xs!r},{u!r}).{name}({w!r}) raised {e!r}")
+                return True
+            if len(got) != len(ref) or not all(lclose(g, r) or (g != g and r != r) for g, r in zip(got, ref)):
+                v.fail("array-value", f"Quantity({form} {xs!r},{u!r}).{name}({w!r}) = {got!r}, the scalar quantities give {ref!r}")
+                return True
+    v.label("array_forms")
+    return False
+
+
 def _conv(x, u, w, err=None):
     """value(w) asked twice on ONE object (a query must not disturb the next one), then to(w) on that object"""
     from scinumtools.units import Quantity
@@ -248,6 +281,8 @@ def _check(case, v):
             bk = to_kelvin(float(back.value()), u)
             if not abs(bk - exp_k) <= tol:
                 return v.fail("temp-roundtrip", f"{x!r} {u} -> {w} -> {u} = {back.value()!r}")
+        if _array_pass(v, u, w, [from_kelvin(t_, u) for t_ in case["vals"]], case.get("err")):
+            return
         v.nt(u != w or u in ("Cel", "degF"))
         if u == w:
             v.label("identity")
@@ -298,6 +333,7 @@ def _check(case, v):
         if kind == "sum2":
             v.label("sum_mixed_prefix")
         return
+    xs_ = []
     for lv in case["vals"]:
         # lv is a level in dB; derive the input x in unit u and the expected output in unit w
         if kind == "loglog":
@@ -340,6 +376,9 @@ def _check(case, v):
             return v.fail("log-raised", f"{u}->{w}->{u} raised {e!r}")
         if not lclose(float(back.value()), x):
             return v.fail("log-roundtrip", f"{x!r} {u} -> {w} -> {u} = {back.value()!r}")
+        xs_.append(x)
+    if _array_pass(v, u, w, xs_, case.get("err")):
+        return
     v.nt(any(lv not in (0.0,) for lv in case["vals"]))
     if case.get("err"):
         v.label("with_uncertainty")
